@@ -32,7 +32,10 @@ def p_handler_left(case, record, expected_text):
             and _has(case, lambda n: n.get("t") == "pthrow")
             and _has(case, lambda n: n.get("t") == "forof" and n.get("ret"))
             and _has(case, lambda n: n.get("t") in ("try", "genret"))
-            and o["idle"][0] == 0 and o["idle"][1] >= 1 and o["idle"][2] == 0 and o["idle"][4] == 0)
+            # one try frame too many; inside a native callback the shifted marker frame also keeps a context, and then
+            # leaveAbrupt is skipped (flag left set)
+            and o["idle"][1] >= 1 and o["idle"][2] == 0
+            and ((o["idle"][0] == 0 and o["idle"][4] == 0) or (o["idle"][0] >= 1 and o["idle"][4] == 1)))
 
 
 def async_stage(ctx):
@@ -98,7 +101,7 @@ CFG = {
              "for each program the undisturbed run, Interrupt(token_k) from the k-th probe() call for every k (stride <= 3 when "
              "> 14 probes), a quarter of them also with ClearInterrupt right after, Interrupt while idle with/without "
              "ClearInterrupt; compared: error kind + InterruptedError.Value(), the complete event log, VerifIdle "
-             "(callStack,tryStack,iterStack,jobQueue,interrupted, sp=0) and kind/log/idle of a follow-up RunString; "
+             "(callStack,tryStack,iterStack,jobQueue,interrupted,curAsyncRunner set, sp=0) and kind/log/idle of a follow-up RunString plus the frame count of a stack it captures; "
              "non-trivial = the call returned an InterruptedError; distinct = by hash of the case"),
     "theorem_names": ["interrupt_prompt", "interrupt_prompt_every_level", "interrupt_prompt_total", "interrupt_prompt_sync",
                       "interrupt_runs_no_handler", "idle_interrupt_next_call", "idle_interrupt_cleared", "no_race_flag",
